@@ -43,6 +43,20 @@ def step (t : List String) : Option String :=
             | some g => pure (showOpt (sandboxStaticCast abiA to fr (.tvol g)))
           else pure (showOpt (sandboxStaticCast abiA to fr (.tainted x)))
       | _ => none
+  | ["scaste", to, src, v] => do
+      -- an enum source converts as its underlying type (C20: the plain static_cast on the underlying value)
+      let to ← Conv.baseTyOfName to
+      match src.splitOn ":" with
+      | [w, en] =>
+          let un ← (if en == "e64" then some "ullong" else if en == "eu32" then some "uint" else if en == "es8" then some "schar" else none)
+          let fr ← Conv.baseTyOfName un; let x ← parseInt? v
+          if ¬ fr.app.inRange x then pure "badinput" else
+          if w == "tvol" then
+            match toSandbox abiA fr x with
+            | none => pure "abort"
+            | some g => pure (showOpt (sandboxStaticCast abiA to fr (.tvol g)))
+          else pure (showOpt (sandboxStaticCast abiA to fr (.tainted x)))
+      | _ => none
   | ["scastf", to, src, v] => do
       let to ← floatTyOfName to
       match src.splitOn ":" with
